@@ -61,11 +61,76 @@ fn windows(ctx: &mut Ctx, sc: &StreamCase) {
     }
 }
 
+/// Output space that ends exactly where a stored block starts right after a Huffman block with very
+/// short codes (the decoder then holds the stored block's header and first bytes in its bit buffer):
+/// limits `boundary − 2 ..= boundary + 3` through the vector function, a slice of exactly that size,
+/// and `out_max` below the slice length; then the decode is resumed with all the room.
+fn boundary_limits(ctx: &mut Ctx, z: &[u8], plain: &[u8], bounds: &[usize], zlib: bool) {
+    let id = ctx.id();
+    let replay = format!("BLIM fmt={} bounds={} n={} data={}", zlib as u8, bounds.iter().map(|b| b.to_string()).collect::<Vec<_>>().join("."), plain.len(), hex(z));
+    ctx.eval(fnv(z) ^ 0x33);
+    ctx.count("boundary_limit_streams");
+    let flags = base_flags(zlib) | TINFL_FLAG_USING_NON_WRAPPING_OUTPUT_BUF;
+    for &b in bounds { for lim in b.saturating_sub(2)..=(b + 3).min(plain.len()) {
+        ctx.count("boundary_limit_cases");
+        // (a) the vector function
+        let r = ep_vec(z, zlib, lim);
+        for (cl, m) in &r.problems { ctx.violation(id, cl, m.clone(), replay.clone()); }
+        if lim >= plain.len() { if r.st != 0 || r.out != plain { ctx.violation(id, "limit", format!("limit {} >= size {}: status {}", lim, plain.len(), r.st), replay.clone()); } }
+        else if r.st != TINFLStatus::HasMoreOutput as i32 || r.out.len() != lim || r.out[..] != plain[..lim] { ctx.violation(id, "limit", format!("limit {} < size {}: status {}, {} bytes", lim, plain.len(), r.st, r.out.len()), replay.clone()); }
+        // (b) a slice of exactly `lim` bytes, (c) a larger slice with out_max = lim; both resumed afterwards
+        for exact in [true, false] {
+            let cap = if exact { lim } else { plain.len() + 9 };
+            let res = catch_unwind(AssertUnwindSafe(|| {
+                let mut d = DecompressorOxide::new();
+                let mut out = vec![0x5Au8; cap];
+                let (st, c, w) = decompress_with_limit(&mut d, z, &mut out, 0, lim, flags);
+                (d, out, st, c, w)
+            }));
+            match res {
+                Err(_) => { ctx.violation(id, "panic", format!("panic with {} bytes of room at a stored-block boundary ({})", lim, if exact { "slice end" } else { "out_max" }), replay.clone()); }
+                Ok((mut d, out, st, c, w)) => {
+                    if w > lim || c > z.len() { ctx.violation(id, "bounds", format!("room {}: reported {} written, {} consumed", lim, w, c), replay.clone()); continue; }
+                    if out[..w] != plain[..w] || out[w..].iter().any(|&x| x != 0x5A) { ctx.violation(id, "window", format!("room {}: bytes outside [0, {}) touched or wrong bytes inside", lim, w), replay.clone()); continue; }
+                    if lim < plain.len() && st != TINFLStatus::HasMoreOutput { ctx.violation(id, "status", format!("room {} < size {}: status {:?}", lim, plain.len(), st), replay.clone()); continue; }
+                    // resume with all the room: the rest must come out
+                    if st == TINFLStatus::HasMoreOutput {
+                        let r2 = catch_unwind(AssertUnwindSafe(|| {
+                            let mut big = vec![0x5Au8; plain.len() + 9];
+                            big[..w].copy_from_slice(&out[..w]);
+                            let (st2, _c2, w2) = decompress_with_limit(&mut d, &z[c..], &mut big, w, usize::MAX, flags);
+                            (st2, w2, big)
+                        }));
+                        match r2 {
+                            Err(_) => ctx.violation(id, "panic", format!("panic when resuming after {} bytes", w), replay.clone()),
+                            Ok((st2, w2, big)) => if st2 != TINFLStatus::Done || w + w2 != plain.len() || big[..plain.len()] != plain[..] { ctx.violation(id, "schedule", format!("resumed after {} bytes: {:?}, {} more bytes", w, st2, w2), replay.clone()); }
+                        }
+                    }
+                }
+            }
+        }
+    } }
+}
+
+fn boundary_family(ctx: &mut Ctx) {
+    for _ in 0..(40 * ctx.scale) {
+        let zlib = ctx.rng.chance(1, 2);
+        let (z, plain, bounds) = crate::sgen::huff_then_stored(&mut ctx.rng, zlib);
+        boundary_limits(ctx, &z, &plain, &bounds, zlib);
+    }
+}
+
 pub fn run_c08(ctx: &mut Ctx) {
     if let Some(lines) = ctx.replay_lines.clone() {
         for l in lines {
             let (tag, rest) = l.split_once(' ').unwrap_or(("", ""));
             let kv = crate::kv(rest);
+            if tag == "BLIM" {
+                let bounds: Vec<usize> = kv["bounds"].split('.').filter_map(|x| x.parse().ok()).collect();
+                let z = crate::tx::unhex(&kv["data"]); let zl = kv["fmt"] == "1";
+                let full = ep_vec(&z, zl, 64 << 20);
+                boundary_limits(ctx, &z, &full.out, &bounds, zl); continue;
+            }
             if tag != "LIMIT" && tag != "STREAM" { continue; }
             let sc = StreamCase { z: crate::tx::unhex(&kv["data"]), zlib: kv["fmt"] == "1", tag: "replay".into(), expect_len: 70000, prefix_of_valid: false, trail: 0 };
             if let Some(s) = kv.get("seed") { ctx.rng = crate::rng::Rng::new(s.parse().unwrap_or(1)); }
@@ -80,6 +145,7 @@ pub fn run_c08(ctx: &mut Ctx) {
         limits(ctx, &sc);
         ctx.sample(format!("{} zlib={} len={}", sc.tag, sc.zlib, sc.z.len()));
     }
+    boundary_family(ctx);
 }
 
 // ------------------------------------------------------------------------------------------ C05
@@ -127,7 +193,7 @@ fn history(ctx: &mut Ctx, seed: u64) {
 
 #[allow(non_snake_case)]
 fn Ctx_rng_case(rng: &mut crate::rng::Rng) -> Vec<u8> {
-    let cfg = crate::sgen::GenCfg { max_tokens: 200, max_blocks: 4, zlib: rng.chance(1, 2), pre_len: 0, big: false };
+    let cfg = crate::sgen::GenCfg { max_tokens: 200, max_blocks: 4, zlib: rng.chance(1, 2), pre_len: 0, big: false, heavy: false };
     let g = crate::sgen::gen_stream(rng, &cfg);
     if rng.chance(1, 2) { crate::sgen::mutate(rng, &g.bytes).0 } else { g.bytes }
 }
@@ -136,11 +202,13 @@ pub fn run_c05(ctx: &mut Ctx) {
     if let Some(lines) = ctx.replay_lines.clone() {
         for l in lines {
             if let Some(rest) = l.strip_prefix("HIST ") { let kv = crate::kv(rest); history(ctx, kv["seed"].parse().unwrap()); }
+            else if l.starts_with("BLIM ") { run_c08(ctx); return; }
             else if l.starts_with("STREAM ") { crate::c03::replay(ctx); return; }
         }
         return;
     }
     for _ in 0..(3000 * ctx.scale) { let s = ctx.rng.next(); history(ctx, s); }
+    boundary_family(ctx);
     // random bytes through every entry point (totality of the wrappers)
     for _ in 0..(60 * ctx.scale) {
         let n = ctx.rng.range(0, 400);
